@@ -127,7 +127,8 @@ func genWKB(t *rapid.T) ([]byte, string, bool) {
 			} else {
 				hdr = []byte{1, 7, 0, 0, 0, 1, 0, 0, 0}
 			}
-			if rapid.Bool().Draw(t, "nestinflated") {
+			mode := rapid.SampledFrom([]string{"honest", "hostile", "credible"}).Draw(t, "nestmode")
+			if mode == "hostile" {
 				// every level announces a hostile member count (each level may pre-size its slice again)
 				putU32(hdr, 5, be, rapid.SampledFrom(hostileCounts).Draw(t, "nestcount"))
 			}
@@ -136,6 +137,15 @@ func genWKB(t *rapid.T) ([]byte, string, bool) {
 				inner = inner[:0]
 			}
 			data = append(bytes.Repeat(hdr, depth), inner...)
+			if mode == "credible" {
+				// every level announces a count that the rest of the message could just about hold (one member per
+				// remaining byte, or a fraction of that): large, yet not absurd for the bytes that follow
+				div := rapid.SampledFrom([]int{1, 1, 2, 9, 21}).Draw(t, "nestdiv")
+				for lvl := 0; lvl < depth; lvl++ {
+					rest := len(data) - (lvl+1)*9
+					putU32(data, lvl*9+5, be, uint32(rest/div))
+				}
+			}
 		}
 	}
 	switch src {
@@ -557,7 +567,7 @@ func spec() vkit.Spec[Case] {
 			"random bytes; hex additionally upper case, odd length, non-hex characters. GeoJSON: documents from a grammar (well-shaped, noisy arity/scalars/depth, wrong depth, " +
 			"missing/duplicate/extra keys, non-string type, 50-30000 levels of arrays, huge/tiny numbers, garbage bytes) and mutated valid encodings; Geometry values with " +
 			"[]interface{}, []float64, int and nil-pointer shapes. Oracle per call: no panic; exactly one of geometry/error; geometry well-formed; heap bytes allocated during " +
-			"the call <= K*len(input)+1MiB (K=64 WKB/hex, 512 GeoJSON) plus, for WKB/hex, 24 KiB per 9 input bytes (one pre-sized slice of <= 1024 elements per header; so chains of up to 7000 nested collections that each announce a hostile count stay linear); on success decode(encode(g)) == g. Non-trivial = WKB/hex input derived from a valid encoding by >=1 " +
+			"the call <= K*len(input)+1MiB (K=64 WKB/hex, 512 GeoJSON) plus, for WKB/hex, 24 KiB per 9 input bytes (one pre-sized slice of <= 1024 elements per header; so chains of up to 7000 nested collections that each announce a hostile count, or a count the remaining bytes could just hold, stay linear); on success decode(encode(g)) == g. Non-trivial = WKB/hex input derived from a valid encoding by >=1 " +
 			"mutation and not rejected at the first byte, or JSON text that parses. Distinct by case hash. notes.max_honest_alloc_ratio = largest allocated/input ratio among successful decodes of inputs >= 512 bytes.",
 		Assumptions:  []string{"allocation is measured with runtime.MemStats.TotalAlloc around a single-goroutine call (heap bytes, not peak RSS)", "constants K chosen 10x above honest decoding"},
 		Gen:          gen,
